@@ -30,7 +30,9 @@ PARTIAL, by nature and by finding:
   is FALSE of the code as it is: `d25_counterexample` (an instance released inside a living process deletes the files
   of its retained checkpoint), `d34_counterexample` (after a rescale-out a table is deleted although another running
   instance, whose key range does not overlap it, still lists it), `d50_counterexample` (a same-directory reopen drops
-  the document entries of older retained checkpoints). All three are open findings (D25, D34, D50).
+  the document entries of older retained checkpoints), `d63_counterexample` (a background write of an instance dropped
+  inside a living process lands on a table file name the reopened instance of the same directory uses). All four are
+  open findings (D25, D34, D50, D63).
 * for ALL histories (any number of instances, restores, rescales, releases) the theorems
   `table_file_removed_only_by_justified_collect`, `error_means_keep` and
   `wal_file_removed_only_by_retention_or_overwrite` say who can remove a file and why; `wal_gc` is the exact file
@@ -72,7 +74,8 @@ any earlier instance, not necessarily the newest), when no other instance is run
 file referenced by a job-retained checkpoint of any generation and every table of the running instance's level list
 is in the file store.
 Scope (`inScopeL`), i.e. what remains excluded: an instance released inside a living process (D25: its objects die
-while a successor uses the files); several instances alive at once and restores from several handles (rescale;
+while a successor uses the files; D63: a background write of the previous instance that is still in flight lands
+after the directory was reopened — the previous instance must be quiesced before a reopen); several instances alive at once and restores from several handles (rescale;
 D34: holders whose key range does not overlap a table are never consulted); cleanups run by a dead process. -/
 theorem no_needed_file_deleted_lineage_partial (range : KGRange) (nbrs : List KGRange) (as : List Act) (s : State)
     (h : runL (init1 range nbrs) as = some s) : ∀ f ∈ needed s, f ∈ s.files := by
@@ -203,39 +206,44 @@ theorem restore_numbers_above_loaded (s s' : State) (r : KGRange) (g : Nat) (n :
 /-! ## who removes a file, in any history of any number of instances -/
 
 /-- In ANY history — any number of instances, restores, rescales, releases, any neighbour answers — a table file
-disappears only through a collection of an object for that very table that was unreachable in its instance (in no
-level list the instance holds), and either the instance wrote the table itself, or it loaded it and the table's key
-groups lie inside its own range, or EVERY neighbour whose range overlaps the table answered a definite "no". -/
+disappears only (a) through a collection of an object for that very table that was unreachable in its instance (in no
+level list the instance holds), where either the instance wrote the table itself, or it loaded it and the table's key
+groups lie inside its own range, or EVERY neighbour whose range overlaps the table answered a definite "no"; or
+(b) because a background write that was still in flight in an instance dropped inside a living process lands under
+the same file name (D63: overwrite). -/
 theorem table_file_removed_only_by_justified_collect (s0 s : State) (as : List Act) (u : Path)
     (h : run s0 as = some s) (hin : File.sst u ∈ s0.files) (hout : File.sst u ∉ s.files) :
-    ∃ pre i answers post sm x, as = pre ++ Act.collect i u answers :: post ∧ run s0 pre = some sm ∧
+    (∃ pre i answers post sm x, as = pre ++ Act.collect i u answers :: post ∧ run s0 pre = some sm ∧
       sm.insts[i]? = some x ∧ x.unreachable u = true ∧
       (u ∈ x.created ∨ ∃ t ∈ x.loaded, t.uri = u ∧
         (Gen.kgContains x.range t.span = true ∨
-          ∀ ra ∈ x.nbrs.zip answers, Gen.kgOverlaps ra.1 t.span = true → ra.2 = .no)) :=
+          ∀ ra ∈ x.nbrs.zip answers, Gen.kgOverlaps ra.1 t.span = true → ra.2 = .no))) ∨
+    (∃ pre i t post, as = pre ++ Act.lateWrite i t :: post ∧ t.uri = u) :=
   run_removes_sst h hin hout
 
 /-- error ⇒ keep, for whole histories (D9, repaired: `c09OwnsErrKeeps`; no deadline, errors never swallowed:
 `c09OwnsNoDeadline`, `c09OwnsErrPassed`): if along a history every collection of a loaded object for table `u` whose
 key groups are not inside the collecting operator's own range has some overlapping neighbour that could not be asked
-(error), did not answer (timeout) or said it needs the table, and no instance that wrote `u` itself collects it,
-then the file of `u` is never deleted. -/
+(error), did not answer (timeout) or said it needs the table, no instance that wrote `u` itself collects it, and no
+late write of a released instance lands on its name (D63), then the file of `u` is never deleted. -/
 theorem error_means_keep (s0 s : State) (as : List Act) (u : Path) (h : run s0 as = some s)
     (hin : File.sst u ∈ s0.files)
     (hbad : ∀ pre i answers post sm x, as = pre ++ Act.collect i u answers :: post → run s0 pre = some sm →
       sm.insts[i]? = some x → u ∉ x.created ∧ ∀ t ∈ x.loaded, t.uri = u → Gen.kgContains x.range t.span = false ∧
-        ∃ ra ∈ x.nbrs.zip answers, Gen.kgOverlaps ra.1 t.span = true ∧ ra.2 ≠ .no) :
+        ∃ ra ∈ x.nbrs.zip answers, Gen.kgOverlaps ra.1 t.span = true ∧ ra.2 ≠ .no)
+    (hnolate : ∀ pre i t post, as = pre ++ Act.lateWrite i t :: post → t.uri ≠ u) :
     File.sst u ∈ s.files := by
   by_cases hout : File.sst u ∈ s.files
   · exact hout
-  · obtain ⟨pre, i, answers, post, sm, x, has, hpre, hx, _, hwhy⟩ := run_removes_sst h hin hout
-    obtain ⟨hnc, hl⟩ := hbad pre i answers post sm x has hpre hx
-    rcases hwhy with hc | ⟨t, ht, htu, hd⟩
-    · exact absurd hc hnc
-    · obtain ⟨hcont, ra, hra, ho, hne⟩ := hl t ht htu
-      rcases hd with hd | hd
-      · rw [hd] at hcont; cases hcont
-      · exact absurd (hd ra hra ho) hne
+  · rcases run_removes_sst h hin hout with ⟨pre, i, answers, post, sm, x, has, hpre, hx, _, hwhy⟩ | ⟨pre, i, t, post, has, htu⟩
+    · obtain ⟨hnc, hl⟩ := hbad pre i answers post sm x has hpre hx
+      rcases hwhy with hc | ⟨t, ht, htu, hd⟩
+      · exact absurd hc hnc
+      · obtain ⟨hcont, ra, hra, ho, hne⟩ := hl t ht htu
+        rcases hd with hd | hd
+        · rw [hd] at hcont; cases hcont
+        · exact absurd (hd ra hra ho) hne
+    · exact absurd htu (hnolate pre i t post has)
 
 /-- In ANY history a WAL file disappears only when a checkpoint seals a WAL of the same file name (overwrite) or a
 retention update drops a checkpoint that references a WAL of that name — nothing else ever removes a WAL, and a
@@ -307,6 +315,17 @@ example : decision ⟨0, 4⟩ ⟨"t", 2, 5⟩ [(⟨4, 8⟩, .no)] = .delete ∧
     decision ⟨0, 4⟩ ⟨"t", 1, 3⟩ [(⟨4, 8⟩, .needs)] = .delete := by decide
 
 /-! ## the unrestricted statement is false of the code as it is (open findings) -/
+
+/-- D63: the operator is redeployed inside a living process. Instance 0 is dropped (`release`) while one of its
+compactions is still writing; instance 1 is opened from checkpoint 1 in the same directory and flushes table "t1" —
+the name instance 0's numbering had reserved for its compaction output. When that write lands, the live table "t1" of
+the running instance 1 is overwritten. -/
+def d63Trace : List Act :=
+  [.openFresh ⟨0, 8⟩ 0 [] 0, .flush 0 ⟨"t0", 0, 7⟩, .ckpt 0 1 ⟨0, 0, 0⟩, .release 0,
+   .openFrom ⟨0, 8⟩ 1 [] [0] 1 0, .flush 1 ⟨"t1", 0, 7⟩, .lateWrite 0 ⟨"t1", 0, 7⟩]
+
+theorem d63_counterexample :
+    (run {} d63Trace).map (fun s => (liveTables s, missing s)) = some (["t1", "t0"], [File.sst "t1"]) := by decide
 
 /-- D50: an instance reopened in the directory of the instance it restores from saves a checkpoints document that
 starts at the restored checkpoint: the entry of the older checkpoint 1, which the job still retains, is gone (the
